@@ -80,6 +80,12 @@ func HandleLogin(deps ServerDeps, conn net.Conn, tag string, parts []string, sta
 		return
 	}
 
+	// RFC 3501 section 6.2: LOGIN is only valid in the not authenticated state
+	if state.Authenticated {
+		deps.SendResponse(conn, fmt.Sprintf("%s BAD Already authenticated", tag))
+		return
+	}
+
 	// Detect if TLS is active
 	isTLS := false
 	if _, ok := conn.(*tls.Conn); ok {
@@ -112,6 +118,12 @@ func HandleLogin(deps ServerDeps, conn net.Conn, tag string, parts []string, sta
 func HandleAuthenticate(deps ServerDeps, conn net.Conn, tag string, parts []string, state *models.ClientState) {
 	if len(parts) < 3 {
 		deps.SendResponse(conn, fmt.Sprintf("%s BAD AUTHENTICATE requires authentication mechanism", tag))
+		return
+	}
+
+	// RFC 3501 section 6.2: AUTHENTICATE is only valid in the not authenticated state
+	if state.Authenticated {
+		deps.SendResponse(conn, fmt.Sprintf("%s BAD Already authenticated", tag))
 		return
 	}
 
